@@ -335,6 +335,51 @@ example : Civil.lexLt (reading exFall (999000000000000 / 1000000000))
     (reading exFall (1006200000000000 / 1000000000)) :=
   C14_reading_advances exHalf exHalf_wf exFall _ (by omega) _ exFall_second
 
+/-! ## The expiry clause at full strength (instants, not readings) — FALSE for the code as it is
+
+`C14_expiry` speaks of local readings that come after prev's reading in calendar order. The property's
+sentence "never reports expiry while matching local times remain in the future" is about instants. The
+two differ exactly inside the first pass of a repeated interval: a reading smaller than prev's reading is
+shown again later. The code's search runs over readings, so the full-strength clause fails; the witness
+below is replayed against the real code on every run (`qh dst`, class `one-shot-in-first-pass`, known
+finding `overlap-first-pass-expiry`). -/
+
+/-- full strength: expiry is reported only if no instant after prev shows a matching reading -/
+def ExpiryFull (f : Fields) (z : Zone) (prev : Int) : Prop :=
+  nextFire {} f z prev = .expired → ∀ u : Int, prev / 1000000000 < u → ¬ Matches f (reading z u)
+
+/-- `0 30 14 12 1 ? 1970` — once, on 1970-01-12 at 14:30:00 -/
+def exOneShot : Fields :=
+  { sec := ⟨[0], 0⟩, min := ⟨[30], 0⟩, hour := ⟨[14], 0⟩, dom := ⟨[12], 0⟩, month := ⟨[1], 0⟩,
+    dow := ⟨[], 0⟩, year := ⟨[1970], 0⟩ }
+
+theorem exOneShot_wf : WellFormed exOneShot = true := by decide
+
+/-- from 14:13:20 (first pass) the one-shot fires at the first 14:30:00 -/
+example : nextFire {} exOneShot exFall 998000000000000 = .ok 999000000000000 := by decide +kernel
+
+/-- prev = 999600 s = 14:40:00 in the FIRST pass: the first 14:30:00 (999000 s) is over, the second one
+    (1002600 s) is 50 minutes ahead — and the answer is "expired" -/
+theorem exFall_oneShot_expired : nextFire {} exOneShot exFall 999600000000000 = .expired := by
+  decide +kernel
+
+/-- from the second pass the one-shot's second occurrence is answered — so that instant matches (`C14_sound`) -/
+theorem exFall_oneShot_second : nextFire {} exOneShot exFall 1000100000000000 = .ok 1002600000000000 := by
+  decide +kernel
+
+theorem exFall_oneShot_remains : (999600000000000 : Int) / 1000000000 < 1002600 ∧
+    Matches exOneShot (reading exFall 1002600) := by
+  refine ⟨by decide, ?_⟩
+  have h := C14_sound exOneShot exOneShot_wf exFall _ (by omega) exFall_bounded _ exFall_oneShot_second
+  have e : (1002600000000000 : Int) / 1000000000 = 1002600 := by decide
+  rw [e] at h
+  exact h.2.2
+
+/-- **the full-strength expiry clause does not hold** (known finding `overlap-first-pass-expiry`);
+    what is proved for all inputs is `C14_expiry` (= the clause for readings after prev's reading) -/
+theorem C14_expiry_full_fails : ¬ ExpiryFull exOneShot exFall 999600000000000 := fun h =>
+  h exFall_oneShot_expired 1002600 exFall_oneShot_remains.1 exFall_oneShot_remains.2
+
 /-! The same evaluations on the model of `time.Date`'s two-lookup resolution (`TZ.toZone`). For the
 fall-back zone (later offset 0, like Europe/London) `time.Date` resolves a repeated reading to its
 *second* occurrence, so from 14:13:20 (first pass) the result is the second 14:30:00 (1002600 s) and the
